@@ -11,7 +11,7 @@ destination field has a default and an allow_unlinked_optional policy selects it
 """
 import copy
 import linecache
-from collections import Counter, OrderedDict, defaultdict, deque
+from collections import Counter, OrderedDict, defaultdict
 from dataclasses import dataclass, field, make_dataclass
 from typing import Generic, NewType, TypeVar
 
